@@ -437,6 +437,11 @@ impl<'l> StringTokenizer<'l> {
         'outer: loop {
             if let Some(next) = self.scanner.peek() {
                 match next {
+                    // hex digits; must come before the exponent arm or 0x1e5 reads as a float
+                    c if base == 16 && c.is_ascii_hexdigit() => {
+                        working.push(c);
+                        self.scanner.next();
+                    }
                     '0' => {
                         working.push(next);
                         self.scanner.next();
